@@ -1,4 +1,5 @@
 import SciVerif.Lemmas.Fmt
+import SciVerif.Lemmas.Replace
 /-!
 # C15 — placeholders and path modifiers expand as documented
 
@@ -174,15 +175,42 @@ theorem c15_default_path_formula (procName outName ext : S) (inPaths params tags
         [outName] ++ (if ext = [] then [] else [ext])) := by
   simp [defaultPath, kv]
 
-/-! ### the full statement (not yet proved) and its necessary side condition -/
+/-! ### the full statement and its necessary side condition -/
 
 /-- For patterns whose literal chunks and all substituted values are brace-free, the iterative
-global `strings.Replace` of `formatCommand` equals the single-pass expansion. -/
-def c15_full : Prop :=
-  ∀ (cmd : S) (env : Env),
-    (∀ t ∈ tokenize cmd, match t with | .lit c => notBrace c = true | .ph _ => True) →
-    (∀ ph ∈ placeholders cmd, ∀ r, replacement env ph = some r → r.all notBrace = true) →
-    fmtLoop env (placeholders cmd) cmd = fmtSpec env (tokenize cmd)
+global `strings.Replace` of `formatCommand` equals the single-pass expansion: every placeholder
+occurrence is replaced by its own expansion (or the whole call fails when one value is missing),
+whatever the number, order and repetition of placeholders. -/
+theorem c15_full (cmd : S) (env : Env)
+    (hlit : ∀ t ∈ tokenize cmd, match t with | .lit c => notBrace c = true | .ph _ => True)
+    (hval : ∀ ph ∈ placeholders cmd, ∀ r, replacement env ph = some r → r.all notBrace = true) :
+    fmtLoop env (placeholders cmd) cmd = fmtSpec env (tokenize cmd) := by
+  rw [fmtLoop_eq_loopR, fmtSpec_eq_specR]
+  exact loopR_full (replacement env) cmd hlit hval
+
+/-- the same for `SetOut` path patterns: `setOutPath` is the single-pass expansion of the pattern -/
+theorem c15_full_path (pattern : S) (env : PathEnv)
+    (hlit : ∀ t ∈ tokenize pattern, match t with | .lit c => notBrace c = true | .ph _ => True)
+    (hval : ∀ ph ∈ placeholders pattern, ∀ r, pathReplacement env ph = some r → r.all notBrace = true) :
+    setOutPath pattern env = specR (pathReplacement env) (tokenize pattern) := by
+  unfold setOutPath
+  rw [pathLoop_eq_loopR]
+  exact loopR_full (pathReplacement env) pattern hlit hval
+
+/-- non-vacuity: a pattern with a repeated placeholder, a modifier and a literal tail meets the
+hypotheses of `c15_full` -/
+def envFull : Env :=
+  { portInfos := [("a".toList, ⟨"p".toList, [], false, false, []⟩), ("b".toList, ⟨"p".toList, [], false, false, []⟩)],
+    inPaths := [], inStream := [], subs := [], outPaths := [],
+    params := [("a".toList, "x/y.txt".toList), ("b".toList, "z".toList)], tags := [], prepend := [] }
+
+def cmdFull : S := "{p:a|basename} {p:b} {p:a|basename}!".toList
+
+example :
+    ((tokenize cmdFull).all fun t => match t with | .lit c => notBrace c | .ph _ => true) = true ∧
+    ((placeholders cmdFull).all fun ph => match replacement envFull ph with | some r => r.all notBrace | none => false) = true ∧
+    fmtSpec envFull (tokenize cmdFull) = some "y.txt z y.txt!".toList ∧
+    fmtLoop envFull (placeholders cmdFull) cmdFull = some "y.txt z y.txt!".toList := by decide
 
 def envReexp : Env :=
   { portInfos := [("a".toList, ⟨"p".toList, [], false, false, []⟩), ("b".toList, ⟨"p".toList, [], false, false, []⟩)],
@@ -197,6 +225,8 @@ theorem c15_reexpansion_outside_domain :
 
 end SciVerif.Fmt
 
+#print axioms SciVerif.Fmt.c15_full
+#print axioms SciVerif.Fmt.c15_full_path
 #print axioms SciVerif.Fmt.c15_modifiers_left_to_right
 #print axioms SciVerif.Fmt.c15_basename
 #print axioms SciVerif.Fmt.c15_dirname
